@@ -423,7 +423,10 @@ def run_param(case):
                     bad.append("equality")
                 # ... and still after the copy alone has been used elsewhere (other points, other heights)
                 a0 = c16.ARGS[0]
-                q(a0["x"], a0["y"], None if z is None else a0["z"] + 1.5, t=0.1)
+                try:
+                    q(a0["x"], a0["y"], None if z is None else a0["z"] + 1.5, t=0.1)
+                except (ZeroDivisionError, FloatingPointError, OverflowError, ValueError):
+                    pass  # the tree is not defined at that point (its own arithmetic); nothing to compare
                 if not (q == p) or not (p == q):
                     bad.append("equality-after-use")
                 if not c16.same(q(args["x"], args["y"], z, t=0.7), want):
